@@ -48,6 +48,29 @@ def oracle(freq, amp, rng_, peak):
     return None
 
 
+NEUTRAL_KWARGS = [None, {}, {"prominence": 0}, {"distance": 1}, {"height": -1e300}, {"prominence": 0, "distance": 1}, {"width": 0}]
+
+
+def range_at_maxima(rng, freq, amp):
+    """a range whose limit(s) sit on (or within half a step of) a local maximum of the curve: the limit-nearest sample is an
+    edge of the slice and must never be reported, and everything strictly inside must be"""
+    pm = plateau_maxima(list(amp))
+    if not pm:
+        return hvgen.gen_range(rng, freq)
+    def at():
+        l, r = pm[int(rng.integers(0, len(pm)))]
+        i = int(rng.integers(l, r + 1))
+        step = (freq[min(i + 1, len(freq) - 1)] - freq[max(i - 1, 0)]) / 2
+        return float(freq[i] + rng.choice([0.0, 0.0, 0.3, -0.3]) * step)
+    k = rng.random()
+    if k < 0.3:
+        return (at(), None)
+    if k < 0.6:
+        return (None, at())
+    a, b = sorted([at(), float(rng.choice([at(), hvgen.gen_range(rng, freq)[0] or freq[0], freq[-1]]))])
+    return (a, b)
+
+
 def impl_curve_peak(obj):
     f, a = obj.peak_frequency, obj.peak_amplitude
     return None if (f is None or f != f) else [float(f), float(a)]
@@ -67,10 +90,11 @@ def parse_peak(line):
 def run(ctx):
     import hvsrpy
     ctx.rule = ("(a) single curves (8-40 points; smooth, noisy, multi-peak, monotone, flat, integer ties, plateaus; linear/log grids) x ranges "
-                "(unbounded, half-open, on/off grid, inverted, outside) on HvsrCurve and HvsrDiffuseField incl. sequences of 1-6 range updates; "
+                "(unbounded, half-open, on/off grid, limits on the curve's own local maxima, inverted, outside) x find_peaks options {None, {}, neutral options} on HvsrCurve and HvsrDiffuseField incl. sequences of 1-6 range updates; "
                 "(b) update/mask histories on HvsrTraditional and HvsrAzimuthal incl. mean-curve peak; non-trivial = slice holds >=2 local maxima, "
                 "a plateau/tie, or is empty by construction; distinct by input hash")
-    ctx.trusted += ["find_peaks keyword options other than None are passed through to scipy and not modelled"]
+    ctx.trusted += ["find_peaks keyword options that can exclude peaks (height/prominence/width thresholds, distance > 1) are passed through to scipy and not "
+                    "modelled; options that cannot exclude any peak (prominence=0, distance=1, height=-1e300, width=0) are exercised and must not change the answer"]
     rng = np.random.default_rng(ctx.seed)
     n = ctx.budget(300, 5000)
     reqs, cases = [], []
@@ -79,13 +103,16 @@ def run(ctx):
         amp = hvgen.gen_curve(rng, freq)
         cls = hvsrpy.HvsrCurve if i % 2 == 0 else hvsrpy.HvsrDiffuseField
         obj = cls(freq, amp)
-        seq = [(None, None)] + [hvgen.gen_range(rng, freq) for _ in range(int(rng.integers(1, 7)))]
+        seq = [(None, None)] + [(range_at_maxima(rng, freq, amp) if rng.random() < 0.3 else hvgen.gen_range(rng, freq)) for _ in range(int(rng.integers(1, 7)))]
         if rng.random() < 0.3:   # repeat a range, change only one bound: the early-return path
             r0 = seq[-1]
             seq += [r0, (r0[0], hvgen.gen_range(rng, freq)[1]), r0]
         for k, r in enumerate(seq):
             if k > 0:
-                obj.update_peaks_bounded(search_range_in_hz=r, find_peaks_kwargs={} if rng.random() < 0.5 else None)
+                # keyword options that cannot exclude any peak: the reported peak must be the same as without them
+                kw = NEUTRAL_KWARGS[int(rng.integers(0, len(NEUTRAL_KWARGS)))]
+                ctx.count("kwargs:" + ("none" if kw is None else ("empty" if not kw else "neutral-options")))
+                obj.update_peaks_bounded(search_range_in_hz=r, find_peaks_kwargs=(dict(kw) if kw is not None else None))
             pk = impl_curve_peak(obj)
             extra = None
             if cls is hvsrpy.HvsrDiffuseField:
